@@ -159,13 +159,62 @@ func CheckKinds(run *core.Run, prog *load.Program) {
 		run.Undecided("G-KINDS", "switch", pos, "populateImports has no type switch")
 		return
 	}
+	// which clause handles a value of each concrete go/types type: the first clause (in order) that
+	// lists the type itself or an interface type it implements
 	clauses := map[string]*ast.CaseClause{}
-	for _, cc := range ts.Body.List {
-		cl := cc.(*ast.CaseClause)
-		for _, e := range cl.List {
-			k := types.ExprString(e)
-			k = strings.Replace(k, "types.", "", 1)
-			clauses[k] = cl
+	gt := prog.ByPath["go/types"]
+	for k := range writerTable {
+		if k == "nil" || gt == nil {
+			continue
+		}
+		tn, _ := gt.Types.Scope().Lookup(strings.TrimPrefix(k, "*")).(*types.TypeName)
+		if tn == nil {
+			continue
+		}
+		ptr := types.NewPointer(tn.Type())
+		for _, cc := range ts.Body.List {
+			cl := cc.(*ast.CaseClause)
+			matched := false
+			for _, e := range cl.List {
+				ct := info.TypeOf(e)
+				if ct == nil {
+					continue
+				}
+				if types.Identical(ct, ptr) {
+					matched = true
+				} else if it, ok := ct.Underlying().(*types.Interface); ok && types.Implements(ptr, it) {
+					matched = true
+				}
+			}
+			if matched {
+				clauses[k] = cl
+				break
+			}
+		}
+	}
+	// an exempt kind that lands in a clause must not register or descend there
+	for k, row := range writerTable {
+		if row.Exempt == "" || clauses[k] == nil {
+			continue
+		}
+		cl := clauses[k]
+		var does []string
+		for _, st := range f.Sites() {
+			if !within(cl, st.Call) || st.Callee == nil {
+				continue
+			}
+			if st.Callee == fn || load.FuncName(st.Callee) == "Registry.AddImport" {
+				does = append(does, load.FuncName(st.Callee))
+			}
+		}
+		shared := false // the clause is shared with a non-exempt kind through an interface case
+		for k2, c2 := range clauses {
+			if c2 == cl && writerTable[k2].Exempt == "" {
+				shared = true
+			}
+		}
+		if shared || len(does) > 0 {
+			run.Check("G-KINDS/only-printed", k+":case", prog.Pos(cl.Pos()), len(does) == 0, fmt.Sprintf("values of kind %s are handled by a case that calls %v, but the type printer prints no package at such a node (%s): a package is imported that the file never refers to", k, does, row.Exempt))
 		}
 	}
 	var kinds []string
@@ -276,19 +325,25 @@ func CheckKinds(run *core.Run, prog *load.Program) {
 	// nothing else is descended into: an import discovered for something the printer never prints is an unused import
 	for _, cc := range ts.Body.List {
 		cl := cc.(*ast.CaseClause)
-		var kind string
-		for _, e := range cl.List {
-			kind = strings.Replace(types.ExprString(e), "types.", "", 1)
+		var handled []string
+		for k, c2 := range clauses {
+			if c2 == cl && writerTable[k].Exempt == "" {
+				handled = append(handled, k)
+			}
 		}
-		row, known := writerTable[kind]
+		sort.Strings(handled)
+		if len(handled) == 0 {
+			continue
+		}
 		for _, s := range f.Sites() {
 			if s.Callee != fn || !within(cl, s.Call) || len(s.Call.Args) == 0 {
 				continue
 			}
 			arg := types.ExprString(s.Call.Args[0])
-			okArg := false
-			if known {
-				for _, comp := range row.Components {
+			okArg := !strings.Contains(arg, "Constraint(") && !strings.Contains(arg, "TypeParams(") && !strings.Contains(arg, "Underlying(")
+			for _, kind := range handled {
+				match := false
+				for _, comp := range writerTable[kind].Components {
 					last := comp
 					if i := strings.LastIndexByte(comp, '.'); i >= 0 {
 						last = comp[i+1:]
@@ -297,12 +352,15 @@ func CheckKinds(run *core.Run, prog *load.Program) {
 					if i := strings.IndexByte(comp, '.'); i >= 0 {
 						first = comp[:i]
 					}
-					if accessorChain(arg, first, last, comp) && !strings.Contains(arg, "Constraint(") && !strings.Contains(arg, "TypeParams(") && !strings.Contains(arg, "Underlying(") {
-						okArg = true
+					if accessorChain(arg, first, last, comp) {
+						match = true
 					}
 				}
+				if !match {
+					okArg = false
+				}
 			}
-			run.Check("G-KINDS/only-printed", kind+":"+arg, prog.Pos(s.Call.Pos()), okArg, fmt.Sprintf("the %s case descends into %s, which the type printer does not print at this node: packages found there are imported but never referred to (unused import) and the walk may not terminate (constraints can refer back to their type parameter)", kind, arg))
+			run.Check("G-KINDS/only-printed", strings.Join(handled, ",")+":"+arg, prog.Pos(s.Call.Pos()), okArg, fmt.Sprintf("the case for %s descends into %s, which the type printer does not print at such a node: packages found there are imported but never referred to (unused import) and the walk may not terminate (constraints can refer back to their type parameter)", strings.Join(handled, ","), arg))
 		}
 	}
 	run.Floor("G-KINDS/case", 11)
